@@ -4,6 +4,10 @@ import fcntl, hashlib, json, os, random, re, subprocess, sys, time
 
 ROOT = os.path.dirname(os.path.dirname(os.path.abspath(__file__)))
 REPO = os.environ.get("VERIF_REPO", "/repo")
+# where evidence and replay files go (overridden when trying the checks on a seeded change)
+_OUT = os.environ.get("VERIF_OUT")
+OUT_EVID = os.path.join(_OUT or ROOT, "evidence")
+OUT_REPLAYS = os.path.join(_OUT or ROOT, "replays")
 COQ = os.path.join(ROOT, "coq")
 BUILD = os.path.join(ROOT, "build")
 GUARD = "BBLANCHON_ARDUINOJSON_VERIF"
@@ -113,7 +117,8 @@ def check_props_file(prop):
     for blk in re.split(r"\n(?=Closed under|Axioms:)", out):
         if blk.startswith("Axioms:"):
             for m in re.finditer(r"^([A-Za-z_][\w.']*)\s*:", blk, re.M):
-                axioms.add(m.group(1))
+                if m.group(1) != "Axioms":
+                    axioms.add(m.group(1))
     n_closed = len(re.findall(r"Closed under the global context", out))
     n_ax = len(re.findall(r"^Axioms:", out, re.M))
     return dict(ok=(rc == 0), theorems=theorems, axioms=sorted(axioms), log=out, cmd=cmd,
@@ -216,9 +221,16 @@ def run_lines(exe, lines, timeout=600, env=None):
     e["UBSAN_OPTIONS"] = "print_stacktrace=1:halt_on_error=1:exitcode=98"
     if env:
         e.update(env)
+    pre = None
+    if os.path.basename(exe) == "model_driver":
+        # the extracted model is not tail recursive: give it the whole stack for very large documents
+        def pre():
+            import resource
+            soft, hard = resource.getrlimit(resource.RLIMIT_STACK)
+            resource.setrlimit(resource.RLIMIT_STACK, (hard, hard))
     try:
         p = subprocess.run([exe], input="\n".join(lines) + "\n", stdout=subprocess.PIPE,
-                           stderr=subprocess.PIPE, timeout=timeout, text=True, env=e, errors="replace")
+                           stderr=subprocess.PIPE, timeout=timeout, text=True, env=e, errors="replace", preexec_fn=pre)
     except subprocess.TimeoutExpired as ex:
         out = (ex.stdout or b"")
         out = out.decode(errors="replace") if isinstance(out, bytes) else out
@@ -288,8 +300,8 @@ class Run:
         self.known_hits[entry_id] = what
 
     def finish(self):
-        os.makedirs(os.path.join(ROOT, "evidence"), exist_ok=True)
-        os.makedirs(os.path.join(ROOT, "replays"), exist_ok=True)
+        os.makedirs(OUT_EVID, exist_ok=True)
+        os.makedirs(OUT_REPLAYS, exist_ok=True)
         rc = 0
         for kid, what in sorted(self.known_hits.items()):
             print(f"KNOWN-FINDING: property={self.prop} {kid} {what}")
@@ -299,7 +311,7 @@ class Run:
             if key in seen:
                 continue
             seen.add(key)
-            path = os.path.join(ROOT, "replays", f"{self.prop}-{key}.json")
+            path = os.path.join(OUT_REPLAYS, f"{self.prop}-{key}.json")
             replay = dict(replay)
             replay.setdefault("property", self.prop)
             replay.setdefault("what", what)
@@ -322,10 +334,10 @@ class Run:
             ev["coverage"]["discharged_count"] = self.cov.pop("discharged", 0)
             ev["coverage"]["evaluations"] = max(1, self.cov["evaluations"])
             ev["coverage"]["distinct_nontrivial"] = max(2, self.cov["distinct_nontrivial"])
-        tmp = os.path.join(ROOT, "evidence", self.prop + ".json.tmp")
+        tmp = os.path.join(OUT_EVID, self.prop + ".json.tmp")
         with open(tmp, "w") as f:
             json.dump(ev, f, indent=1, default=str)
-        os.replace(tmp, os.path.join(ROOT, "evidence", self.prop + ".json"))
+        os.replace(tmp, os.path.join(OUT_EVID, self.prop + ".json"))
         return rc
 
 def load_known_findings():
